@@ -82,6 +82,54 @@ def resources_history(cache_type: str) -> dict:
             "meta": {"scenario": "resources", "cache_type": cache_type, "parallel": False}}
 
 
+def replace_history(cache_type: str, flags: tuple[bool, bool], which: str) -> dict:
+    """map -> Pipeline.replace(function `which` by another implementation with the SAME signature) -> map with the same
+    inputs, on one pipeline with a cache.  `flags` = cache=True of (f, g): Pipeline.map memoises every function in the
+    pipeline's cache whatever its flag, so nothing the replaced function (or anything downstream) produced before may be
+    served afterwards."""
+    import copy
+    zipms = {"ins": [{"name": "a", "axes": ["i"]}], "outs": [{"name": "y", "axes": ["i"]}]}
+    gms = {"ins": [{"name": "y", "axes": ["i"]}], "outs": [{"name": "w", "axes": ["i"]}]}
+
+    def fn(name, params, outs, ms, cache):
+        return {"name": name, "params": params, "outputs": outs, "defaults": [], "bound": [], "has_ms": True, "ms": ms,
+                "internal": [], "cache": cache, "retnone": False, "rescpus": "", "impl": "v1"}
+    desc = {"funcs": [fn("f", ["a"], ["y"], zipms, flags[0]), fn("g", ["y"], ["w"], gms, flags[1])]}
+    inputs = [["a", arr(["@p", "@q", "@p"])]]
+    pdesc = pmap.tla_desc_to_py(desc)
+    pdesc["cache_type"] = cache_type
+    tmp = tempfile.mkdtemp(prefix="pfverif_c09x_")
+    if cache_type == "disk":
+        pdesc["cache_kwargs"] = {"cache_dir": tmp + "/cache"}
+    elif cache_type in ("lru", "hybrid"):
+        pdesc["cache_kwargs"] = {"shared": False}
+    build.reset_log()
+    evs: list[dict] = []
+    try:
+        with contextlib.redirect_stdout(io.StringIO()):
+            pl = build.make_pipeline(pdesc)
+        inp = pmap.inputs_to_py(inputs, {"a": "list"})
+        for run in range(3):
+            if run == 1:
+                k = 0 if which == "f" else 1
+                newt = copy.deepcopy(desc["funcs"][k])
+                newt["impl"] = "v2"
+                newpy = pmap.tla_desc_to_py({"funcs": [newt]})["funcs"][0]
+                with contextlib.redirect_stdout(io.StringIO()):
+                    pl.replace(build.make_pipefunc(newpy))
+                pdesc["funcs"][k] = newpy
+                evs.append(pmap.ev(e="replace", f=which, func=newt))
+            e, res = pmap.do_map(pl, pdesc, inp, run_folder=tmp + f"/run{run}", storage="dict", parallel=False, cleanup=True,
+                                 load=False)
+            evs += e
+            if isinstance(res, Exception):
+                break
+    finally:
+        shutil.rmtree(tmp, ignore_errors=True)
+    return {"desc": desc, "inputs": inputs, "ev": evs,
+            "meta": {"scenario": f"replace-{which}-flags{int(flags[0])}{int(flags[1])}", "cache_type": cache_type, "parallel": False}}
+
+
 def history(scen: dict, cache_type: str, parallel: bool) -> dict:
     pdesc = pmap.tla_desc_to_py(scen["desc"])
     pdesc["cache_type"] = cache_type
@@ -122,6 +170,10 @@ def run(ctx) -> None:
                 traces.append(history(scen, ct, True))
     for ct in (["simple", "lru"] if quick else ["simple", "lru", "hybrid", "disk"]):
         traces.append(resources_history(ct))
+    for ct in (["simple", "lru"] if quick else ["simple", "lru", "hybrid", "disk"]):
+        for flags in ((False, False), (True, False), (False, True), (True, True)):
+            for which in ("f", "g"):
+                traces.append(replace_history(ct, flags, which))
     for t in traces:
         ncall = sum(1 for e in t["ev"] if e["e"] == "call")
         ctx.case({"map-cache": t["meta"], "calls": ncall}, nontrivial=True)
